@@ -598,7 +598,9 @@ def emitBindingSet (cfg : Cfg) (c : IdClass) (p : Bool) : Code :=
   match c with
   | .stackVar => .ins (if p then iKeep1 "storeStack" else ⟨"storeStackP", 0, 1, 1, 0, false⟩)
   | .const isStrict =>
-      if isStrict || cfg.strict then .ins iThrowAssignToConst
+      if isStrict || cfg.strict then
+        -- TDZ check first (emitGetP: loadStackLex, pop), then the TypeError (fix 6a214f2)
+        cat [.ins (push1 "loadStackLex"), .ins iPop, .ins iThrowAssignToConst]
       else if !p then .ins iPop else .nil      -- emitSetP pops the ignored value (fix 5a4962f); emitSet keeps it
   | _ => .ins (if p then iKeep1 "storeStackLex" else ⟨"storeStackLexP", 0, 1, 1, 0, false⟩)
 
